@@ -640,13 +640,18 @@ type IdxCase struct {
 
 func enumIdx(yield func(IdxCase) bool) {
 	for _, name := range []string{"", "a", "a.b", "1.a", "0x2"} {
-		for _, mi := range gridMaxIdx() {
+		for _, mi := range append(gridMaxIdx(), negativeCaps...) {
 			max := int64(defaultMaxIdx)
 			if mi != nil {
 				max = *mi
 			}
 			seen := map[int64]bool{}
-			for _, idx := range []int64{0, 1, max - 1, max, max + 1, max + 2, 2*max + 3} {
+			idxs := []int64{0, 1, max - 1, max, max + 1, max + 2, 2*max + 3}
+			if max < 0 {
+				// a negative MaxIdx leaves no index at all: lists must not grow, whatever the idx
+				idxs = []int64{0, 1, 2, 7, 1000, 1024, 2000, 3000}
+			}
+			for _, idx := range idxs {
 				if idx < 0 || seen[idx] {
 					continue
 				}
@@ -661,8 +666,13 @@ func enumIdx(yield func(IdxCase) bool) {
 	}
 }
 
+// negativeCaps: MaxIdx values below zero. "Between 0 and the configured
+// maximum index" is an empty range then: no segment and no explicit idx is a
+// list index, so no call may make a list grow (MaxIdx+1 <= 0 entries).
+var negativeCaps = []*int64{i64(-1), i64(-2), i64(-1025), i64(math.MinInt64)}
+
 func runIdx(c IdxCase, r *runlog.R) error {
-	if c.Idx < 0 || (c.MaxIdx != nil && *c.MaxIdx < 0) {
+	if c.Idx < 0 {
 		r.Discard()
 		return nil
 	}
@@ -695,7 +705,12 @@ func runIdx(c IdxCase, r *runlog.R) error {
 		return fmt.Errorf("Set(%q, %d) with MaxIdx=%d: %v", c.Name, c.Idx, max, err)
 	}
 	r.NonTrivialIf(int64(c.Idx) >= max-1)
-	if l := longestList(ucfg.VerifSnapshot(cfg)); int64(l) > capLen(max) {
+	r.ClassIf(max < 0, "negative MaxIdx: no idx may make a list grow")
+	limit := capLen(max)
+	if limit < 0 {
+		limit = 0
+	}
+	if l := longestList(ucfg.VerifSnapshot(cfg)); int64(l) > limit {
 		return fmt.Errorf("Set(%q, idx=%d) with MaxIdx=%d (error: %v) left a list of %d entries, more than MaxIdx+1", c.Name, c.Idx, max, err, l)
 	}
 	if err != nil {
@@ -713,7 +728,7 @@ func runIdx(c IdxCase, r *runlog.R) error {
 
 var subIdx = runlog.Register(&runlog.Sub[IdxCase]{
 	Name: "explicit-idx",
-	Rule: "names {empty, a, a.b, 1.a, 0x2} x MaxIdx {not given, 0, 1, 7, 2000 (+5000 thorough)} x explicit idx {0, 1, cap-1, cap, cap+1, cap+2, 2cap+3} x setter {SetString, SetBool, SetChild} on an empty config. Only the consequence stated by C20 is asserted: whatever the call returns, no list has more than MaxIdx+1 entries afterwards (and an accepted value is found by Has). Non-trivial: idx >= cap-1.",
+	Rule: "names {empty, a, a.b, 1.a, 0x2} x MaxIdx {not given, 0, 1, 7, 2000 (+5000 thorough); negative: -1, -2, -1025, MinInt64 - the range [0, MaxIdx] is empty then, idx {0, 1, 2, 7, 1000, 1024, 2000, 3000} and no list may grow at all} x explicit idx {0, 1, cap-1, cap, cap+1, cap+2, 2cap+3} x setter {SetString, SetBool, SetChild} on an empty config. Only the consequence stated by C20 is asserted: whatever the call returns, no list has more than MaxIdx+1 entries afterwards (and an accepted value is found by Has). Non-trivial: idx >= cap-1 (always for a negative cap).",
 	Enum: enumIdx,
 	Run:  runIdx,
 })
